@@ -2,6 +2,8 @@
 # Runs the repository's pinned test suite (guard off) and compares with /root/.vp/BASELINE.json.
 # usage: baseline.sh [repo-dir]
 repo="${1:-/repo}"
+# the cache tests bind a fixed port: never run two suites at once
+exec 9>/var/tmp/baseline.lock; flock 9
 out=$(mktemp /var/tmp/baseline.XXXXXX.json)
 before=$(git -C "$repo" status --porcelain --untracked-files=no)
 for m in . ./test; do
